@@ -1,0 +1,8 @@
+//go:build verif
+
+package fs
+
+// Wrapper for the verification harness of property C15 (build tag verif only).
+
+// VerifC15StandardizePath exposes standardizePath.
+func VerifC15StandardizePath(p string) string { return standardizePath(p) }
